@@ -51,6 +51,20 @@ func genC19(g *Gen) {
 		g.do(Step{Op: "ReadSQL", Recv: -1, Other: f + 1, Sql: conf})
 		g.end()
 	}
+	// the same frame written under several dialect configurations, one after the other, in one process
+	for rep := 0; rep < g.pick(6, 40); rep++ {
+		g.begin("sql dialect sequence")
+		f := g.do(g.stdNew(1+g.rng.Intn(3), g.oneOf([]string{"AS", "ABF", "SE"}), 8))
+		if g.frame(f).Err == nil {
+			confs := []*SqlConf{{Table: "t", Dialect: "sqlite"}, {Table: "t", Dialect: "postgres"}, {Table: "t", Dialect: "mysql"}, {Table: "t"},
+				{Table: "t", Escape: '"'}, {Table: "t", Escape: '"', Incr: true}, {Table: "t", Incr: true}}
+			g.rng.Shuffle(len(confs), func(i, j int) { confs[i], confs[j] = confs[j], confs[i] })
+			for _, c := range confs {
+				g.do(Step{Op: "ToSQL", Recv: f, Sql: c})
+			}
+		}
+		g.end()
+	}
 	// result sets with NULLs in text and float columns (leading, middle, trailing), coercions, errors
 	mk := func(t string, i int64, f string, s string) SqlVal { return SqlVal{T: t, I: i, F: f, S: toBS(s)} }
 	null := SqlVal{T: "null"}
